@@ -4,6 +4,7 @@ import (
 	"fmt"
 	"math"
 	"regexp"
+	"runtime"
 	"sort"
 	"strings"
 
@@ -374,7 +375,18 @@ func (r *runner) exec(s *Step, g *lib.Rand) {
 		if s.V.IsNil() && t.RawGet(r.pool.L(*s.K)) != lua.LNil {
 			r.delPres++
 		}
+		var m0 runtime.MemStats
+		if s.V.IsNil() {
+			runtime.ReadMemStats(&m0)
+		}
 		r.store(s.How, *s.K, *s.V)
+		if s.V.IsNil() {
+			var m1 runtime.MemStats
+			runtime.ReadMemStats(&m1)
+			if d := m1.TotalAlloc - m0.TotalAlloc; d > 32<<20 {
+				r.failf("storing nil under %s allocated %d MiB", s.K.N, d>>20)
+			}
+		}
 		coq = fmt.Sprintf("SSet %s %s %s", setHowCoq(s.How), s.K.CoqKey(), s.V.CoqVal())
 	case "get":
 		v := r.of(r.load(s.How, *s.K))
@@ -428,12 +440,18 @@ func (r *runner) exec(s *Step, g *lib.Rand) {
 		}
 		coq = "SAppend " + s.V.CoqVal()
 	case "insert":
+		var m0, m1 runtime.MemStats
+		runtime.ReadMemStats(&m0)
 		if s.How == "lua.insert" {
 			if _, err := r.callLib("table", "insert", t, lua.LNumber(s.I), r.pool.L(*s.V)); err != nil {
 				r.failf("table.insert raised: %v", err)
 			}
 		} else {
 			t.Insert(int(s.I), r.pool.L(*s.V))
+		}
+		runtime.ReadMemStats(&m1)
+		if d := m1.TotalAlloc - m0.TotalAlloc; s.V.IsNil() && d > 32<<20 {
+			r.failf("table.insert(t, %d, nil) allocated %d MiB", s.I, d>>20)
 		}
 		coq = fmt.Sprintf("SInsert %s %s", lib.CoqZ(s.I), s.V.CoqVal())
 	case "remove":
